@@ -224,13 +224,14 @@ VARIANTS = [{'which': 'quote', 'sp': True, 'm': 0, 'pad': 1}, {'which': 'quote',
 @lemma('Q4.pipeline', 'C04',
        quick=[dict(v, k=1, sigma=True) for v in VARIANTS[:4]] + by('c1', list('a-#>='), [dict(v, k=2, sigma=False) for v in (VARIANTS[0], VARIANTS[2])]),
        thorough=[dict(v, k=1, sigma=True) for v in VARIANTS]
-       + by('c1', list(Q4_ALPH), [dict(v, k=k, sigma=False, timeout=3000) for v in VARIANTS for k in (2, 3)]),
+       + by('c1', list(Q4_ALPH), [dict(v, k=2, sigma=False, timeout=3000) for v in VARIANTS])
+       + by('c1', list('a-#>='), [dict(v, k=3, sigma=False, timeout=6000) for v in (VARIANTS[0], VARIANTS[3])]),
        timeout=900, per_path=120, canary=[{'k': 3, 'sigma': False, 'which': 'quote', 'sp': True, 'm': 0, 'pad': 1, 'c1': 'a', 'noexcl': True}],
        covers=['block_token.py:Document.__init__', 'block_token.py:Quote.read', 'block_token.py:ListItem.read', 'block_tokenizer.py:tokenize_block'],
        note="T of k characters (over Σmd without tab, or over the 18-character alphabet): AST of Document(embed(T)) == one container around the AST of Document(T), same link definitions; quote markers '> ' and '>', list markers from 7 spellings with padding 1..4")
 def q4_pipeline(c1: int, c2: int, c3: int, sp: bool, m: int, pad: int) -> bool:
     """
-    pre: (all_ok(cp_md, P('k'), c1, c2, c3) if P('sigma') else all_in(Q4_ALPH, P('k'), c1, c2, c3)) and fixed(c1, 'c1')
+    pre: fixed(c1, 'c1') and (all_ok(cp_md, P('k'), c1, c2, c3) if P('sigma') else all_in(Q4_ALPH, P('k'), c1, c2, c3))
     pre: c1 != 9 and c2 != 9 and c3 != 9 and sp == P('sp') and m == P('m') and pad == P('pad')
     post: _
     """
